@@ -34,15 +34,15 @@ def _json_lines(out):
 
 def run(module, cfg, tag, env=None, workers=1, simulate=None, depth=None,
         seed=None, timeout=1800, coverage=False, extra=None, javaopts=None,
-        deadlock=False):
+        deadlock=False, moddir=None):
     """Run TLC on spec/<module>.tla with spec/<cfg>. Returns dict with
     out, json (parsed PrintT lines), states, distinct, ok, error."""
     md = workdir("tlc_" + tag)
-    cmd = ["java", "-XX:+UseParallelGC", "-Xss16m"]
+    cmd = ["java", "-XX:+UseParallelGC", "-Xss16m", "-DTLA-Library=" + SPEC]
     if javaopts:
         cmd += javaopts
     cmd += ["-cp", JAR, "tlc2.TLC", "-workers", str(workers), "-metadir", md,
-            "-noGenerateSpecTE", "-config", os.path.join(SPEC, cfg)]
+            "-noGenerateSpecTE", "-config", os.path.join(moddir or SPEC, cfg)]
     if not deadlock:
         cmd += ["-deadlock"]
     if coverage:
@@ -55,13 +55,13 @@ def run(module, cfg, tag, env=None, workers=1, simulate=None, depth=None,
         cmd += ["-seed", str(seed)]
     if extra:
         cmd += extra
-    cmd += [os.path.join(SPEC, module + ".tla")]
+    cmd += [os.path.join(moddir or SPEC, module + ".tla")]
     e = dict(os.environ)
     if env:
         e.update({k: str(v) for k, v in env.items()})
     t0 = time.time()
     try:
-        p = subprocess.run(cmd, cwd=SPEC, env=e, capture_output=True, text=True,
+        p = subprocess.run(cmd, cwd=moddir or SPEC, env=e, capture_output=True, text=True,
                            timeout=timeout)
     except subprocess.TimeoutExpired:
         raise TLCError("TLC timeout (%s s) on %s" % (timeout, module))
